@@ -3,6 +3,7 @@
 import json, sys
 pid = sys.argv[1]
 n = int(sys.argv[2]) if len(sys.argv) > 2 else 2
+avoid = sys.argv[3] if len(sys.argv) > 3 else ""
 wt = f"/tmp/wt-{pid}"
 for l in open('/verif/properties.jsonl'):
     p = json.loads(l)
@@ -21,7 +22,7 @@ Your task: produce {n} DIFFERENT source changes (mutations) to the library crate
   1. BREAKS the property above (for some input / sequence / configuration the statement becomes false);
   2. still COMPILES (cargo build --offline --workspace) with no new warnings that would stand out;
   3. still PASSES the existing test-suite: `cd {wt} && CARGO_TARGET_DIR={wt}/target cargo test --workspace --no-fail-fast --offline` (about 130 tests; all must still pass);
-  4. is REALISTIC and SUBTLE: the kind of slip a maintainer could make in a refactor or "optimisation" (an off-by-one at a boundary, a forgotten case in a match, a wrong fork gate, a missing journal entry, an operand order, a skipped update on one path, two sites that each look fine alone). It must need something specific to manifest — an unusual input, a particular multi-step sequence of operations, a particular fork/configuration, a failure at a particular point — NOT something that ordinary use would expose at once (e.g. not "every transaction now fails"). Do not touch test code, and do not add cfg flags or environment checks.
+  4. is REALISTIC and SUBTLE: the kind of slip a maintainer could make in a refactor or "optimisation" (an off-by-one at a boundary, a forgotten case in a match, a wrong fork gate, a missing journal entry, an operand order, a skipped update on one path, two sites that each look fine alone). It must need something specific to manifest — an unusual input, a particular multi-step sequence of operations, a particular fork/configuration, a failure at a particular point — NOT something that ordinary use would expose at once (e.g. not "every transaction now fails"). Do not touch test code, and do not add cfg flags or environment checks.{(" Ideas that earlier rounds already used and that you must NOT repeat (find different sites and different mechanisms): " + avoid) if avoid else ""} Prefer changes whose effect is a wrong *behaviour* deep in a multi-step scenario (state after nested reverts, interaction of two features, a boundary of a rarely used fork or configuration) over changes to a constant that any single call would reveal.
 
 For each mutation also write a DEMONSTRATION: a small Rust integration test file (placed at {wt}/crates/revm/tests/demo_<name>.rs, or under the crate the mutation lives in, using only that crate's existing dependencies/dev-dependencies) that FAILS with the mutation applied and PASSES on the unmodified code. Verify both directions yourself by actually running it (git stash / git apply as needed).
 
